@@ -45,6 +45,7 @@ def make_inputs(d, rng_seed, nsamp=3, chroms=("1", "2"), dup_info=False):
     data = [[(rnd.randint(0, 1), rnd.randint(0, 1), 1) for _ in variants] for _ in refs]
     GF.write_vcf_text(d / "ref.vcf", refs, variants, data, contigs=list(chroms))
     GF.compress_index(d / "ref.vcf", d / "ref.vcf.gz")
+    GF.write_pgen(d / "ref", refs, variants, data)  # the same panel as a PGEN fileset
     with open(d / "info.tab", "w") as f:
         for k, (s, p) in enumerate(info):
             f.write(f"{s}\t{p}\n")
@@ -109,7 +110,7 @@ def gen_inproc(rng, tier):
     for t in range(n):
         # between the two seeded runs something else runs in the same process: nothing, a --region run on the same maps,
         # a run on one chromosome only, the same command with another seed, or another seeded simphenotype call
-        yield {"seed": SEEDS[t % len(SEEDS)], "inputs": rng.randrange(2**31), "burn": [rng.randint(0, 50), rng.randint(51, 500)], "no_repl": t % 2 == 0, "via": "cli" if t % 3 == 0 else "api", "flags": rng.choice([[], ["--pop_field"], ["--pop_field", "--sample_field"]]), "R": rng.choice([2, 3, 3, 60]), "printopts": t % 4 == 1, "interlude": ["region", "chrom2_only", "other_seed", "none", "region_cli", "simphenotype"][t % 6], "region": {"chr": "1", "start": rng.choice([100, 150, 300]), "end": rng.choice([350, 450, 600])}}
+        yield {"pgen_ref": t % 4 == 1, "seed": SEEDS[t % len(SEEDS)], "inputs": rng.randrange(2**31), "burn": [rng.randint(0, 50), rng.randint(51, 500)], "no_repl": t % 2 == 0, "via": "cli" if t % 3 == 0 else "api", "flags": rng.choice([[], ["--pop_field"], ["--pop_field", "--sample_field"]]), "R": rng.choice([2, 3, 3, 60]), "printopts": t % 4 == 1, "interlude": ["region", "chrom2_only", "other_seed", "none", "region_cli", "simphenotype"][t % 6], "region": {"chr": "1", "start": rng.choice([100, 150, 300]), "end": rng.choice([350, 450, 600])}}
 
 
 def _interlude(case, d):
@@ -155,21 +156,27 @@ def impl_inproc(case):
     C.rm_tree(d)
     make_inputs(d, case["inputs"])
     outs = []
+    # a quarter of the histories take the panel from the PGEN fileset, read in chunks of five variants (six per chromosome)
+    ref = str(d / ("ref.pgen" if case.get("pgen_ref") else "ref.vcf.gz"))
     for k in (0, 1):
         if k == 1:
             _interlude(case, d)
         np.random.random(case["burn"][k])  # arbitrary prior use of the global generator
+        if case.get("pgen_ref"):
+            # … and arbitrary prior use of the allocator: arrays of the sizes a panel is read into, filled and dropped
+            junk = [np.full((16, 5 + j, 2), 3 + k, dtype=np.int32) for j in range(8)] + [np.full((16, 12, 3), 2 - k, dtype=np.uint8)]
+            del junk
         out = d / f"run{k}.vcf"
         if case["via"] == "cli":
-            args = ["simgenotype", "--model", str(d / "model.dat"), "--mapdir", str(d / "maps"), "--chroms", "1,2", "--seed", str(case["seed"]), "--ref_vcf", str(d / "ref.vcf.gz"), "--sample_info", str(d / "info.tab"), "--out", str(out)] + case["flags"] + (["--no_replacement"] if case["no_repl"] else [])
+            args = ["simgenotype", "--model", str(d / "model.dat"), "--mapdir", str(d / "maps"), "--chroms", "1,2", "--seed", str(case["seed"]), "--ref_vcf", ref, "--sample_info", str(d / "info.tab"), "--out", str(out)] + (["--chunk-size", "5"] if case.get("pgen_ref") else []) + case["flags"] + (["--no_replacement"] if case["no_repl"] else [])
             r = CliRunner().invoke(main, args, catch_exceptions=True)
             if r.exit_code != 0:
                 return {"error": "cli_exit", "msg": (str(r.exception) or r.output)[-200:]}
         else:
-            popsize = sg.validate_params(str(d / "model.dat"), str(d / "maps"), ["1", "2"], 10, str(d / "ref.vcf.gz"), str(d / "info.tab"), case["no_repl"], None, False)
+            popsize = sg.validate_params(str(d / "model.dat"), str(d / "maps"), ["1", "2"], 10, ref, str(d / "info.tab"), case["no_repl"], None, False)
             n, pd, bps = sg.simulate_gt(str(d / "model.dat"), str(d / "maps"), ["1", "2"], None, popsize, SD.silent_log(), case["seed"])
             bps = sg.write_breakpoints(n, pd, bps, str(d / f"run{k}"), SD.silent_log())
-            sg.output_vcf(bps, ["1", "2"], str(d / "model.dat"), str(d / "ref.vcf.gz"), str(d / "info.tab"), None, "--pop_field" in case["flags"], "--sample_field" in case["flags"], case["no_repl"], str(out), SD.silent_log())
+            sg.output_vcf(bps, ["1", "2"], str(d / "model.dat"), ref, str(d / "info.tab"), None, "--pop_field" in case["flags"], "--sample_field" in case["flags"], case["no_repl"], str(out), SD.silent_log(), **({"chunk_size": 5} if case.get("pgen_ref") else {}))
         outs.append({"bp": hashlib.sha256(open(d / f"run{k}.bp", "rb").read()).hexdigest(), "vcf": digest_vcf(out)})
     # simphenotype, twice, through the Python entry point; replications must differ from each other
     from haptools.sim_phenotype import simulate_pt
@@ -198,7 +205,22 @@ def impl_inproc(case):
     finally:
         np.set_printoptions(**saved)
     cols = list(zip(*[l.split("\t")[1:] for l in ph0.decode().splitlines()[1:]]))
-    return {"runs": outs, "pheno_identical": not differs, "pheno_differs_under": [PHENO_CONFIGS[i] for i in differs], "replication_columns_distinct": len(set(cols)) == len(cols)}
+    # a mix of a haplotype and a tandem repeat as causal variables (the repository's own small TR files), twice with the same
+    # seed and the same arguments – the caller's own ID set among them
+    mixed = None
+    tr_hap, tr_vcf = C.REPO / "tests" / "data" / "simple_tr.hap", C.REPO / "tests" / "data" / "simple_tr.vcf"
+    if tr_hap.exists() and tr_vcf.exists():
+        hdr = "##fileformat=VCFv4.2\n##FILTER=<ID=PASS,Description=\"All filters passed\">\n##contig=<ID=1>\n##FORMAT=<ID=GT,Number=1,Type=String,Description=\"Genotype\">\n"
+        hdr += "#CHROM\tPOS\tID\tREF\tALT\tQUAL\tFILTER\tINFO\tFORMAT\tHG00096\tHG00097\tHG00099\tHG00100\tHG00101\n"
+        open(d / "trh.vcf", "w").write(hdr + "1\t10114\tH1\tA\tT\t.\t.\t.\tGT\t0|1\t0|1\t1|1\t1|1\t0|0\n1\t10115\tH2\tA\tT\t.\t.\t.\tGT\t0|0\t0|1\t0|0\t1|0\t0|0\n1\t10116\tH3\tA\tT\t.\t.\t.\tGT\t0|0\t0|0\t1|0\t0|0\t0|1\n")
+        ids = {"H1", "1:10114:GTT"}
+        runs = []
+        for k in (0, 1):
+            o = d / f"mix{k}.pheno"
+            simulate_pt(d / "trh.vcf", tr_hap, repeats=tr_vcf, haplotype_ids=ids, num_replications=2, heritability=0.5, seed=case["seed"], output=o, log=SD.silent_log())
+            runs.append(open(o, "rb").read())
+        mixed = runs[0] == runs[1]
+    return {"mixed_haplotype_and_repeat_identical": mixed, "runs": outs, "pheno_identical": not differs, "pheno_differs_under": [PHENO_CONFIGS[i] for i in differs], "replication_columns_distinct": len(set(cols)) == len(cols)}
 
 
 def oracle_inproc(case, obs):
@@ -213,6 +235,8 @@ def oracle_inproc(case, obs):
         return f"two simphenotype runs with seed {case['seed']} wrote different phenotype files (options {obs.get('pheno_differs_under')})"
     if not obs["replication_columns_distinct"]:
         return "replications inside one simphenotype run are copies of each other"
+    if obs.get("mixed_haplotype_and_repeat_identical") is False:
+        return f"two simphenotype runs with seed {case['seed']} over a haplotype and a repeat (--repeats), handed the same ID set, wrote different phenotype files"
     return None
 
 
